@@ -448,6 +448,8 @@ class Exec:
             if m.group(2) == 'BITS': return Int(w_, 'u32')
             if ty_ in SIGNED: return Int((1 << (w_ - 1)) - 1 if m.group(2) == 'MAX' else -(1 << (w_ - 1)), ty_)
             return Int((1 << w_) - 1 if m.group(2) == 'MAX' else 0, ty_)
+        m = re.fullmatch(r'tracing::Level::(TRACE|DEBUG|INFO|WARN|ERROR)', t)
+        if m: return Agg('Level', None, [Cell(Agg('LevelInner', ['TRACE', 'DEBUG', 'INFO', 'WARN', 'ERROR'].index(m.group(1)), []))])
         m = re.fullmatch(r'(?:std|core)::net::(Ipv4Addr|Ipv6Addr)::(UNSPECIFIED|LOCALHOST|BROADCAST)', t)
         if m:
             if m.group(1) == 'Ipv4Addr':
